@@ -325,10 +325,19 @@ def cbmc_counterexample(mdir, harness, keys, timeout=2400, mem_gb=40):
         vals = []
         SIZES = {"u8": 1, "i8": 1, "bool": 1, "u16": 2, "i16": 2, "u32": 4, "i32": 4, "char": 4, "u64": 8, "i64": 8, "usize": 8, "isize": 8, "u128": 16, "i128": 16}
         open_call = False
+        arr_start, arr_n, arr_esz = None, 0, 1
         for st in r["trace"]:
             typ = st.get("stepType")
             if typ == "function-call":
                 dn = (st.get("function") or {}).get("displayName", "")
+                ma = re.match(r"kani::any_raw_array::<([a-z0-9]+), (\d+)>", dn)
+                if ma:
+                    # arrays of primitives are produced by ONE call on the solver side but replayed element by element
+                    esz = SIZES.get(ma.group(1), 1)
+                    arr_start, arr_n, arr_esz = len(vals), int(ma.group(2)), esz
+                    vals.extend([[0] * esz for _ in range(arr_n)])
+                    open_call = False
+                    continue
                 if dn.startswith("kani::any_raw_internal"):
                     # one deterministic value per call; a value the slicer dropped from the trace is irrelevant to the
                     # failing property and replayed as zero, keeping later values aligned
@@ -340,6 +349,14 @@ def cbmc_counterexample(mdir, harness, keys, timeout=2400, mem_gb=40):
                 continue
             fn = st.get("sourceLocation", {}).get("function", "")
             lhs = st.get("lhs", "")
+            if fn.startswith("kani::any_raw_array") and lhs.startswith("goto_symex$$return_value") and arr_start is not None:
+                for el in st.get("value", {}).get("elements", []):
+                    b = (el.get("value") or {}).get("binary")
+                    idx = el.get("index")
+                    if b is not None and idx is not None and idx < arr_n:
+                        n = int(b, 2)
+                        vals[arr_start + idx] = [(n >> (8 * i)) & 0xff for i in range(arr_esz)]
+                continue
             if not fn.startswith("kani::any_raw_internal") or not lhs.startswith("goto_symex$$return_value"):
                 continue
             b = st.get("value", {}).get("binary")
